@@ -98,6 +98,9 @@ def draw_case(data, tier):
 
 # ---- evaluation ---------------------------------------------------------------------------------------------------------
 
+_SCALES = []     # norms of the operands met while evaluating a tree (errors are relative to them: a sum may cancel exactly)
+
+
 def ev(tree, fam, N, sp, extra):
     """Evaluate a tree: returns (yastn object, dense array, set of node kinds)."""
     o = tree['op']
@@ -105,11 +108,14 @@ def ev(tree, fam, N, sp, extra):
         obj = G.build_state(tree['desc'], fam, N, extra) if tree['kind'] == 'mps' else G.build_mpo(tree['desc'], fam, N, extra)
         if obj is None:
             raise Reject('zero_random_state')
-        return obj, G.mps_dense(obj, sp), {'leaf:' + tree['desc']['kind']}
+        dn = G.mps_dense(obj, sp)
+        _SCALES.append(float(np.linalg.norm(dn)))
+        return obj, dn, {'leaf:' + tree['desc']['kind']}
     if o == 'add':
         parts = [ev(t, fam, N, sp, extra) for t in tree['args']]
         amps = None if tree['amps'] is None else [cx(a) for a in tree['amps']]
         objs = [p[0] for p in parts]
+        _SCALES.append(float(sum((1 if amps is None else abs(amps[j])) * np.linalg.norm(p[1]) for j, p in enumerate(parts))))
         if tree['how'] == 'plus' and amps is None:
             y = objs[0] + objs[1]
             dn = parts[0][1] + parts[1][1]
@@ -147,6 +153,7 @@ def ev(tree, fam, N, sp, extra):
             y = mps.multiply(a, b)
         else:
             y = mps.multiply(a, b, mode=how.split('_')[1])
+        _SCALES.append(float(np.linalg.norm(da) * np.linalg.norm(db)))
         return y, da @ db, ka | kb | {'matmul'}
     if o == 'TT':
         y, dn, k = ev(tree['arg'], fam, N, sp, extra)
@@ -192,13 +199,18 @@ def execute(case):
     extra = case.get('cfg') or {}
     ops, sp, named = G.family(fam, **extra)
     try:
+        _SCALES.clear()
         y, dn, kinds = ev(case['tree'], fam, N, sp, extra)
     except YastnError as e:
         raise Violation('tree:unexpected_YastnError', str(e))
     is_mpo = case['kind'] == 'mpo'
     labels = ['family:%s:%s' % (G.FAMILIES[fam][0], G.FAMILIES[fam][1]['sym']), f'N={N}', 'kind:' + case['kind']] + sorted('node:' + k for k in kinds)
     got = G.mps_dense(y, sp)
-    check_close('tree:dense', got, dn)
+    top = max(_SCALES + [1e-300])
+    check_close('tree:dense', got, dn, scale=max(np.linalg.norm(dn), np.linalg.norm(got), top * 1e-3))
+    if np.linalg.norm(dn) < 1e-9 * top:
+        # the tree cancels (e.g. -A + A): what is left is rounding noise, relative clauses below have no scale
+        return Res(labels=labels + ['cancellation'], nontrivial=False)
     # to_tensor / to_matrix
     if is_mpo:
         legs = {}
